@@ -5,6 +5,9 @@ import XmppModel.Lemmas.Muc
 import XmppModel.Model.IbbReader
 import XmppModel.Model.IbbClose
 import XmppModel.Generated.C06
+import XmppModel.Lemmas.CorrAttrs
+import XmppModel.Model.CorrWrap
+import XmppModel.Model.CorrExpect
 /-!
 # C06 — every correlated wait ends exactly once with its own reply or its context error
 
@@ -500,5 +503,149 @@ theorem C06_ibb_close_ends_read :
   decide
 
 end Helpers
+
+/-! ### Round C: which attributes are the stanza's id and type (`getIDTyp`) -/
+namespace Attrs
+open XmppModel.CorrAttrs
+
+/-- only unqualified attributes count: removing every attribute that lives in a namespace (or is
+a namespace declaration) changes nothing -/
+theorem C06_idtyp_ignores_qualified (as : List Attr) :
+    getIDTyp as = getIDTyp (as.filter fun a => a.space = .none) := scan_filter as none none
+
+/-- the stanza's own id and type are found whatever qualified attributes stand in front of them
+and whatever follows -/
+theorem C06_idtyp_own_attributes (pre post : List Attr) (id ty : Nat) (h : ∀ a ∈ pre, a.space ≠ .none) :
+    getIDTyp (pre ++ [⟨.none, .id, id⟩, ⟨.none, .type, ty⟩] ++ post) = (some id, some ty) := by
+  unfold getIDTyp
+  rw [List.append_assoc, scan_qualified_prefix _ _ _ _ h]
+  simp [scan]
+
+/-- a stanza without unqualified id / type has none, whatever `x:id`, `xmlns:type` … it carries -/
+theorem C06_idtyp_only_qualified (as : List Attr) (h : ∀ a ∈ as, a.space ≠ .none) :
+    getIDTyp as = (none, none) := by
+  have := scan_qualified_prefix as [] none none h
+  simpa [getIDTyp, scan] using this
+
+/-- a response to somebody else is never correlated with a pending request because of a foreign
+attribute that carries the pending id: the lookup sees the stanza's own id only -/
+theorem C06_decoy_never_correlates (cfg : Cfg) (s : St) (kind : Kind) (ns : Ns) (bad : Bool)
+    (pre post : List Attr) (id ty : Nat) (h : ∀ a ∈ pre, a.space ≠ .none) (hn : s.table id = none) :
+    ∀ i, (getIDTyp (pre ++ [⟨.none, .id, id⟩, ⟨.none, .type, ty⟩] ++ post)).1 = some i →
+      lookup cfg s ⟨kind, i, isResponse (getIDTyp (pre ++ [⟨.none, .id, id⟩, ⟨.none, .type, ty⟩] ++ post)).2, ns, bad⟩ = none := by
+  intro i hi
+  rw [C06_idtyp_own_attributes pre post id ty h] at hi ⊢
+  simp at hi; subst hi
+  simp [lookup, hn]
+
+/-- a get / set that carries a foreign `type="result"` stays a request: it never consults the table -/
+theorem C06_decoy_type_is_no_response (cfg : Cfg) (s : St) (kind : Kind) (ns : Ns) (bad : Bool)
+    (pre post : List Attr) (id ty : Nat) (h : ∀ a ∈ pre, a.space ≠ .none) (ht : 2 ≤ ty) :
+    lookup cfg s ⟨kind, id, isResponse (getIDTyp (pre ++ [⟨.none, .id, id⟩, ⟨.none, .type, ty⟩] ++ post)).2, ns, bad⟩ = none := by
+  rw [C06_idtyp_own_attributes pre post id ty h]
+  have : isResponse (some ty) = false := by
+    simp [isResponse]; omega
+  simp [lookup, this]
+
+-- non-vacuity: `<iq x:id="q0" xmlns:type="result" id="q7" type="get" x:id="q0">`
+example : getIDTyp [⟨.foreign, .id, 0⟩, ⟨.xmlns, .type, 0⟩, ⟨.none, .id, 7⟩, ⟨.none, .type, 2⟩, ⟨.foreign, .id, 0⟩]
+    = (some 7, some 2) := by decide
+
+end Attrs
+
+/-! ### Round C: the IQ helpers that own the response they wait for -/
+namespace Wrap
+open XmppModel.CorrWrap
+
+/-- whatever the reply looks like, exactly one party closes the response: the helper itself, or
+the caller to whom it was handed inside an iterator — never nobody (the serve loop would wait
+for the close for ever), never both (closing twice panics the hand-off channel) -/
+theorem C06_helper_response_closed_once (a : Api) (sh : Shape) :
+    (call a sh).helperCloses + (if (call a sh).handed then 1 else 0) = 1 := by
+  cases a <;> simp only [call, unmarshalIQ, iterIQ] <;> (repeat' split) <;> simp_all
+
+/-- a call that returns an error hands nothing to the caller (so the helper has closed the
+response), and only the iterator helpers ever hand something on -/
+theorem C06_helper_error_means_closed (a : Api) (sh : Shape) (h : (call a sh).err = true) :
+    (call a sh).handed = false ∧ (call a sh).helperCloses = 1 := by
+  cases a <;> simp only [call, unmarshalIQ, iterIQ] at h ⊢ <;> (repeat' split) <;> simp_all
+
+/-- the iterator helpers hand the response on exactly when they succeed; the others never do -/
+theorem C06_helper_handed_iff (a : Api) (sh : Shape) :
+    (call a sh).handed = ((a = .iter ∨ a = .iterElement) && !(call a sh).err) := by
+  cases a <;> simp only [call, unmarshalIQ, iterIQ] <;> (repeat' split) <;> simp_all
+
+/-- a reply whose addresses are not JIDs is an error for every helper -/
+theorem C06_helper_bad_address_is_error (a : Api) (sh : Shape) (h : sh.from_ = .invalid ∨ sh.to = .invalid) :
+    (call a sh).err = true := by
+  have hf : newIQFails sh = true := by
+    rcases h with h | h <;> simp [newIQFails, h]
+  cases a <;> simp [call, unmarshalIQ, iterIQ, hf]
+
+-- non-vacuity: the path on which only the deferred closer stands between a malformed reply and a stalled serve loop
+example : call .iter ⟨.result, .invalid, .absent, .one⟩ = ⟨true, false, 1⟩ := by decide
+example : call .iterElement ⟨.result, .valid, .valid, .nested⟩ = ⟨false, true, 0⟩ := by decide
+
+end Wrap
+
+/-! ### Round C: the listener's table of expected streams (`Expect`) -/
+namespace Expect
+open XmppModel.CorrExpect
+
+theorem slot_cons_same (t : List (Nat × Nat)) (k i : Nat) : slot ((k, i) :: t) k = some i := by
+  simp [slot, List.find?]
+
+/-- own reply: an `Expect` call only ever gets the stream it asked for — the one whose slot it holds -/
+theorem C06_expect_own_stream (s : CorrExpect.St) (k i k' : Nat) (h : Ev.conn i k' ∈ (CorrExpect.step s (.openReq k)).2) :
+    k' = k ∧ slot s.table k = some i := by
+  simp only [CorrExpect.step] at h
+  split at h
+  · simp at h
+  · split at h
+    · simp at h
+    · split at h
+      · rename_i j hj
+        simp at h
+        obtain ⟨rfl, rfl⟩ := h
+        exact ⟨rfl, hj⟩
+      · split at h <;> simp at h
+
+/-- a later call for the same stream takes over: the earlier call returns an error, and the
+stream that is opened afterwards goes to the later call — the earlier call's clean-up does not
+take the slot away from its successor -/
+theorem C06_expect_successor_gets_stream (s : CorrExpect.St) (i k : Nat) (hc : s.closed = false) (hp : s.pending = none) :
+    let s1 := (CorrExpect.step s (.expect i k)).1
+    (CorrExpect.step s1 (.openReq k)).2 = [.conn i k] := by
+  simp only [CorrExpect.step, hc]
+  cases hs : slot s.table k <;> simp [CorrExpect.step, hc, hp, slot_cons_same]
+
+/-- the end of a call's context removes its own slot only: a call that was replaced (and so holds
+no slot any more) leaves the table as it is -/
+theorem C06_expect_cancel_removes_only_own (s : CorrExpect.St) (i : Nat) (e : Nat × Nat)
+    (he : e ∈ s.table) (hne : e.2 ≠ i) : e ∈ (CorrExpect.step s (.cancel i)).1.table := by
+  simp only [CorrExpect.step]
+  split
+  · simp only [forget, List.mem_filter]
+    refine ⟨he, ?_⟩
+    simp [hne]
+  · exact he
+
+/-- an open request for a stream with a waiting `Expect` never goes to `Accept` -/
+theorem C06_expect_precedes_accept (s : CorrExpect.St) (k i : Nat) (hc : s.closed = false) (hp : s.pending = none)
+    (h : slot s.table k = some i) : (CorrExpect.step s (.openReq k)).2 = [.conn i k] := by
+  simp [CorrExpect.step, hc, hp, h]
+
+/-- closing the listener ends every waiting call and leaves nothing in the hand-off -/
+theorem C06_expect_close_releases_all (s : CorrExpect.St) :
+    (CorrExpect.step s .close).1.pending = none ∧ (CorrExpect.step s .close).1.table = [] ∧
+    (CorrExpect.step s .close).2.length = s.table.length + s.acceptors := by
+  simp [CorrExpect.step]
+
+-- non-vacuity: the replaced call's return, then the request: the second call gets the stream
+example : CorrExpect.run {} [.expect 0 0, .expect 1 0, .openReq 0] = [[], [.err 0], [.conn 1 0]] := by decide
+example : CorrExpect.run {} [.expect 0 0, .expect 1 1, .cancel 0, .openReq 0, .accept, .openReq 1]
+    = [[], [], [.err 0], [], [.accConn 0], [.conn 1 1]] := by decide
+
+end Expect
 
 end XmppModel.Props.C06
